@@ -139,6 +139,7 @@ type wireResult struct {
 	callErr error
 	after   [][]byte // writes of the follow-up notification (connection still usable?)
 	invoked int
+	skipped bool // the scripted request does not fit the limit of this run
 }
 
 // runWire executes the case on a fresh transport pair inside a synctest
@@ -227,6 +228,11 @@ func runWire(t *testing.T, w *wireCase, max int32) (r wireResult) {
 			}
 			if extra == 1 {
 				body.Write(codecEncode(map[string]interface{}(w.tags)))
+			}
+			if int32(body.Len()) > max {
+				// the scripted request itself would be refused by the receiver: not a case about the reply
+				r.skipped = true
+				return
 			}
 			e.intv(&req, int64(body.Len()))
 			req.Write(body.Bytes())
@@ -320,6 +326,9 @@ func init() {
 						}
 					}
 					r = runWire(c.t, w, max)
+					if r.skipped {
+						continue
+					}
 				}
 				multi := hasMultiMap(w.arg) || hasMultiMap(w.res) || (w.tags != nil && hasMultiMap(w.tags))
 				over := int(max) < content
